@@ -44,6 +44,17 @@ theorem primitives_safe (b : Bytes) (hb : b.length < 2 ^ 64) (s : St)
     (let s' := (readChunkAsString b s).st; s'.ptr ≤ b.length ∧ ReadsWithin b.length s'.reads) :=
   ⟨nextChunkSize_safe b hb s hs, readChunk_safe b hb len s hs, readChunkAsString_safe b hb s hs⟩
 
+/-- **Whatever a successful load returns is a value the C++ type can hold**: arithmetic values have their
+size, POD vectors a whole number of elements, arrays their length, `std::set`/`std::map` keys are strictly
+increasing and `std::multiset`/`std::multimap` keys non-decreasing with respect to the model's `operator<`
+(a strict weak order, `lt_asymm` / `lt_negTrans`), recursively -- for arbitrary, also malformed, archives. -/
+theorem load_ok_wellformed (ty : Ty) (b : Bytes) (hb : b.length < 2 ^ 64) (v : Val ty) (s : St)
+    (h : loadArchive ty b = .ok v s) : wf ty v = true := by
+  have hg := load_good b hb ty St.init ⟨Nat.zero_le _, by intro iv hiv; cases hiv⟩
+  unfold loadArchive at h
+  rw [h] at hg
+  exact hg.2
+
 /-- The length test of `next_chunk_size`, as regenerated from the source, is *exactly* "header and
 payload fit": it rejects every length that would leave the buffer and no length that fits.
 (`ptr + 4 ≤ bufsize` is what the two earlier tests of the function establish; `size` is a `uint32_t`.) -/
@@ -81,6 +92,21 @@ theorem save_load_roundtrip_framed (ty : Ty) (v : Val ty) (hw : wf ty v = true) 
   apply save_load_rt _ hlen ty v hw hf
   refine ⟨by simp, ?_⟩
   simp [slice]
+
+/-- **Session / cache convenience calls** (`session_interface::store_data` / `fetch_data`,
+`cache_interface::store_data` / `fetch_data`): they are `serialization_traits<T>::save` into a string, the
+store's `set`/`store`, then `get`/`fetch` and `serialization_traits<T>::load` (the translator checks that the
+four bodies still have exactly this shape, `Gen.wrappersAreCompositions`).  For any store whose `get` returns
+what `set` stored under the key (that law is what properties C06 / C07 establish for the session and the
+cache; here it is the explicit hypothesis `hstore`), the object comes back unchanged. -/
+theorem wrappers_roundtrip {Store Key : Type} (set : Key → Bytes → Store → Store) (get : Key → Store → Bytes)
+    (hstore : ∀ k d σ, get k (set k d σ) = d)
+    (ty : Ty) (v : Val ty) (hw : wf ty v = true) (hf : sizesFit ty v = true) (hlen : (save ty v).length < 2 ^ 64)
+    (k : Key) (σ : Store) (_shape : Gen.wrappersAreCompositions = true) :
+    ∃ s, loadArchive ty (get k (set k (save ty v) σ)) = .ok v s := by
+  rw [hstore]
+  obtain ⟨s, h, _⟩ := save_load_roundtrip ty v hw hf hlen
+  exact ⟨s, h⟩
 
 /-- What `write_chunk` / `read_chunk_as_string` do for **any** payload, also beyond the `sizesFit` guard:
 the length field holds `len mod 2^32`, so a string of 2^32 + k bytes is read back as its first k bytes. -/
@@ -149,6 +175,14 @@ example : wf (.pair (.ptr (.set (.pod 4))) (.seq .str)) (some [[1, 0, 0, 0], [0,
 example : wf (.pair (.mmap (.pod 1) (.mset .str)) (.arr .str 2)) ([([1], [[97], [97], [98]]), ([1], [])], [[], [0]]) = true
     ∧ sizesFit (.pair (.mmap (.pod 1) (.mset .str)) (.arr .str 2)) ([([1], [[97], [97], [98]]), ([1], [])], [[], [0]]) = true := by
   decide
+
+/-- a store meeting `hstore`: a single cell -/
+example : ∀ (k : Unit) (d : Bytes) (σ : Bytes), (fun (_ : Unit) (σ : Bytes) => σ) k ((fun (_ : Unit) (d : Bytes) (_ : Bytes) => d) k d σ) = d :=
+  fun _ _ _ => rfl
+
+/-- a malformed set archive (elements 2, 1, 2 in that order) loads as the sorted, duplicate-free set {1, 2} -/
+example : ∃ s, loadArchive (.set (.pod 1)) [8,0,0,0, 3,0,0,0,0,0,0,0, 1,0,0,0, 2, 1,0,0,0, 1, 1,0,0,0, 2] = .ok [[1], [2]] s :=
+  ⟨_, rfl⟩
 
 /-- an unsorted "set" is not a value of the type -/
 example : wf (.set (.pod 4)) [[0, 1, 0, 0], [1, 0, 0, 0]] = false := by decide
